@@ -82,6 +82,49 @@ func runC02(p *core.Prog, r *core.Report) {
 	c02R12(p, r)
 	// what the getters of a fetched index return is not rewritten behind its back: list filters build fresh lists (shared with C03.R6)
 	c03R6(p, r, "C02.R13")
+	c02R14(p, r)
+}
+
+// c02R14: a signed schema1 manifest is digested over its canonical payload. The values the getters
+// return have to be decoded from those same bytes: decoding the whole received document instead lets
+// keys outside the signed payload (a second fsLayers after the formatLength prefix) decide what the
+// manifest says while the digest says something else.
+func c02R14(p *core.Prog, r *core.Report) {
+	const rule = "C02.R14"
+	r.Rule(rule, "parsed bytes = digested bytes (signed schema1): in (*SignedManifest).UnmarshalJSON every json.Unmarshal into the manifest fields takes the signature payload (the value stored as Canonical), never the function's parameter", 1)
+	sm := p.Named("types/docker/schema1", "SignedManifest")
+	var fn *ssa.Function
+	if sm != nil {
+		fn = p.MethodOf(sm, "UnmarshalJSON")
+	}
+	if fn == nil {
+		r.MissingAnchor(rule, "types/docker/schema1.(*SignedManifest).UnmarshalJSON")
+		return
+	}
+	n := 0
+	lab := labeler{}
+	for _, g := range sortedFuncs(core.Helpers(fn, 2)) {
+		core.Calls(g, func(c ssa.CallInstruction) {
+			cal := core.Callee(c)
+			if cal == nil || !(core.IsFunc(cal, "encoding/json", "Unmarshal")) || len(c.Common().Args) != 2 {
+				return
+			}
+			dst := underIface(c.Common().Args[1])
+			pt, ok := dst.Type().Underlying().(*types.Pointer)
+			if !ok || !core.IsModNamed(pt.Elem(), "types/docker/schema1", "Manifest") {
+				return
+			}
+			n++
+			fromParam := core.HasOrigin(core.Origins(c.Common().Args[0], core.SliceOpts{Helpers: core.Helpers(fn, 2)}), func(o core.Origin) bool {
+				return o.Kind == core.OParam && o.Param.Parent() == fn
+			})
+			r.Check(!fromParam, rule, p.FuncName(g), lab.next("manifest fields decoded from"), p.Pos(c.Pos()),
+				"the manifest fields are decoded from the received document, the digest is computed over the signature payload: keys outside the payload change what the getters return without changing the digest")
+		})
+	}
+	if n == 0 {
+		r.Undecided(rule, p.FuncName(fn), "manifest fields decoded from", p.Pos(fn.Pos()), "no json.Unmarshal into the manifest fields found")
+	}
 }
 
 // rootedAt reports whether address a is (a field/element chain of) field `field` of receiver recv.
@@ -1051,6 +1094,15 @@ func c02R9(p *core.Prog, r *core.Report) {
 				case "bytes", "strings", "encoding/json", "unicode", "unicode/utf8", "regexp":
 					// bytes.Buffer.Bytes() and the like hand back what was written into them: not a rewrite
 					if sig, ok := o.Callee().Type().(*types.Signature); ok && sig.Recv() != nil && (core.IsNamed(sig.Recv().Type(), "bytes", "Buffer") || core.IsNamed(sig.Recv().Type(), "strings", "Builder")) {
+						// … as long as the buffer is the function's own: the slice returned by Bytes() is
+						// a view that the next write into a buffer shared with the caller overwrites
+						if o.Call != nil && len(o.Call.Call.Args) > 0 && o.Callee().Name() == "Bytes" {
+							for _, bo := range core.Origins(o.Call.Call.Args[0], core.SliceOpts{}) {
+								if bo.Kind == core.OParam || bo.Kind == core.OField || bo.Kind == core.OFree || bo.Kind == core.OGlobal {
+									bad = "Bytes() of a buffer that outlives the call (" + bo.Describe() + "): the manifest keeps a view into storage that the next use of the buffer overwrites"
+								}
+							}
+						}
 						continue
 					}
 					if o.Callee().Name() == "Clone" {
